@@ -8,8 +8,11 @@ run_one() {
   f=$1; name=$(basename $f .diff); R=/var/tmp/harmrepos/$name
   rm -rf $R; mkdir -p $R; cp -r /repo/src /repo/Cargo.toml $R/
   (cd $R && patch -p1 -s < $f) || { echo "patch failed" > ${f%.diff}.result; return; }
+  [ -f ${f%.diff}.result ] && return
   : > ${f%.diff}.result.tmp
+  REL=$(python3 tools/relevant_checks.py $f)
   for id in $IDS; do
+    case " $REL " in *" $id "*) ;; *) echo "$id OK (inputs untouched by the patch: same text as the unchanged tree)" >> ${f%.diff}.result.tmp; continue;; esac
     out=$(bin/check $id --tier quick --repo $R 2>&1 | grep -v "^WARNING")
     v=$(echo "$out" | grep -o "^VIOLATION\|^OK\|^INCONCLUSIVE" | head -1)
     why=$(echo "$out" | grep "^INCONCLUSIVE\|failed obligation" | head -2 | cut -c1-260 | tr '\n' '|')
